@@ -58,6 +58,24 @@ def build_program(workdir, scale_depth=None):
     return Program(out)
 
 
+def gc_escapes():
+    """source lines at which the Go compiler's escape analysis places a value on the heap
+    ('escapes to heap' / 'moved to heap'), for the packages of /repo's current tree"""
+    r = subprocess.run(['go', 'build', '-gcflags=-m', './...'], cwd=REPO, env=GOENV, capture_output=True, text=True)
+    if r.returncode != 0:
+        raise ToolError('go build -gcflags=-m failed')
+    out = set()
+    import re as _re
+    for line in (r.stderr + r.stdout).splitlines():
+        m = _re.match(r'^(\./)?([^:]+\.go):(\d+):\d+: (.*)$', line)
+        if not m:
+            continue
+        msg = m.group(4)
+        if 'escapes to heap' in msg or 'moved to heap' in msg:
+            out.add('%s:%s' % (os.path.join(REPO, m.group(2)), m.group(3)))
+    return out
+
+
 class ToolError(Exception):
     pass
 
@@ -99,6 +117,8 @@ class Session:
         h[RJSON + '.vAssert'] = self._assert
         h[RJSON + '.vReach'] = self._reach
         h[RJSON + '.vNumValue'] = self._numvalue
+        h[RJSON + '.vAllocWatch'] = self._allocwatch
+        h[RJSON + '.vAllocs'] = lambda ex, st, fr, ins, a: sum(1 for k, s in st.flags if k == 'alloc')
         h[RJSON + '.vNondetUint64'] = lambda ex, st, fr, ins, a: self._nondet(st, a, 64)
         h[RJSON + '.vAssertRounded'] = self._assert_rounded
         h[RJSON + '.vNumOverflows'] = self._numovf
@@ -164,6 +184,14 @@ class Session:
             ex.enter(st, fr, ('F', RJSON + '.vFloatStub', ()), args, ins)
             return _TRANSFER
         self.ex.hooks[FP + '.ParseJSONFloatPrefix'] = redirect
+
+    def _allocwatch(self, ex, st, fr, ins, args):
+        on = args[0]
+        if on:
+            st.flags = st.flags | {('watch', '')}
+        else:
+            st.flags = st.flags - {('watch', '')}
+        return None
 
     def no_float_overflow(self):
         self.ex.hooks[RJSON + '.vNumOverflows'] = lambda ex, st, fr, ins, a: False
@@ -260,7 +288,18 @@ class Session:
         returns (verdict, assignment var idx -> int)"""
         return self.model_pc(st.pc, st.extras)
 
-    def model_pc(self, pc, extras):
+    def model_pc(self, pc, extras, quick=False):
+        if quick and any(e.hard for e in extras):
+            # sample extraction must not cost more than the proof obligations: short timeout
+            sv = self.ex.solver.lia.s
+            sv.set('timeout', 1500)
+            try:
+                r = self.ex.solver.check(pc, extras, ())
+            finally:
+                sv.set('timeout', self.ex.solver.timeout_ms)
+            if r != 'sat':
+                return r, None
+            return r, self.ex.solver.model_assign()
         r = self.ex.solver.check(pc, extras, ())
         if r != 'sat':
             return r, None
